@@ -141,7 +141,7 @@ impl Prop for C10 {
         "C10"
     }
     fn rule(&self) -> String {
-        "case = ((k,c1..c4,u): random with exponents up to ±60 and zeros, the 45 benchmark pieces of the repository, u only, one c_j only, all comparable, k and u only; v>0: every float within ±4096 ulps of 1, of e^1.71 and of e^-1.72 (the two switch points), e^-x for x swept over [-40,40] in steps of 1e-3, |x| = 2^-j down to 2^-70, v in [0.8,1.2] in steps of 1e-6, v = 1 ± m·2^-j for j up to 58, |x| up to 708, full-range v, MIN_POSITIVE, MAX, a few subnormal v). Oracle: x = -ln v and x^5R(x) in 384-bit arithmetic (series for |x|<2, e^x minus the 5-term Taylor polynomial otherwise; the two are compared in the self-test); |fl - E| <= 1e-12·(|k| + Σ|v c_j x^j| + |u v x^5R|); at v = 1 the value must be exactly k. Domain: magnitude sum within 2^±900 (else counted as excluded). Inputs matching the signature of the open known finding KF1 (e^x overflows, i.e. v < 5.5627e-309, or an unscaled term |c_j x^j|, |u x^5R(x)| >= 2^1020) are excluded and counted while it is listed. Non-trivial: u != 0 and v != 1. Thorough: additionally the complete ±4096-ulp neighbourhoods of the three special points for 32 coefficient sets.".into()
+        "case = ((k,c1..c4,u): random with exponents up to ±60 and zeros, the 45 benchmark pieces of the repository, u only, one c_j only, all comparable, k and u only; all six numbers times a common power of two 2^k (k=0 in 70% of cases, else uniform in ±250); v>0: every float within ±4096 ulps of 1, of e^1.71 and of e^-1.72 (the two switch points), e^-x for x swept over [-40,40] in steps of 1e-3, |x| = 2^-j down to 2^-70, v in [0.8,1.2] in steps of 1e-6, v = 1 ± m·2^-j for j up to 58, |x| up to 708, full-range v, MIN_POSITIVE, MAX, a few subnormal v). Oracle: x = -ln v and x^5R(x) in 384-bit arithmetic (series for |x|<2, e^x minus the 5-term Taylor polynomial otherwise; the two are compared in the self-test); |fl - E| <= 1e-12·(|k| + Σ|v c_j x^j| + |u v x^5R|); at v = 1 the value must be exactly k. Domain: magnitude sum within 2^±900 (else counted as excluded). Inputs matching the signature of the open known finding KF1 (e^x overflows, i.e. v < 5.5627e-309, or an unscaled term |c_j x^j|, |u x^5R(x)| >= 2^1020) are excluded and counted while it is listed. Non-trivial: u != 0 and v != 1. Thorough: additionally the complete ±4096-ulp neighbourhoods of the three special points for 32 coefficient sets.".into()
     }
     fn assumptions(&self) -> Vec<String> {
         vec!["1e-12 is used truncated to 384 bits (a hair stricter than the property's constant)".into()]
@@ -150,7 +150,7 @@ impl Prop for C10 {
         tier.pick(300_000, 4_000_000)
     }
     fn strategy(&self, _tier: Tier) -> BoxedStrategy<Case> {
-        (coeff_strategy(), v_strategy()).prop_map(|(n, v)| Case { nums: n.into_iter().map(B).collect(), v: B(v) }).boxed()
+        (coeff_strategy(), v_strategy(), gen::common_scale(250)).prop_map(|(n, v, sc)| Case { nums: n.into_iter().map(|t| B(t * sc)).collect(), v: B(v) }).boxed()
     }
     fn check(&self, case: &Case, ctx: &mut Ctx) -> Outcome {
         let nums: Vec<f64> = case.nums.iter().map(|b| b.0).collect();
